@@ -511,8 +511,8 @@ Proof.
       + reflexivity.
       + exact Hst.
   }
-  destruct o as [| |k|k|k v| | |]; try (cbn [expand] in H; exact (Hconnect _ _ H));
-    cbn [expand run] in H; unfold step in H; rewrite Hr in H; cbn [negb] in H.
+  destruct o as [| |k|k|k v|k| | |]; try (cbn [expand] in H; exact (Hconnect _ _ H));
+    cbn [expand run] in H; unfold step in H; try rewrite Hr in H; cbn [negb] in H.
   - (* ClientClose *)
     cbn [negb with_sessions running] in H. rewrite Hr in H. cbn [negb] in H. inversion H; subst. clear H.
     apply rel_intro; unfold remove; cbn [trk running store with_sessions max_sessions next_id sessions served accepted up value];
@@ -531,6 +531,8 @@ Proof.
     unfold alive in H. rewrite (existsb_ids k _ Hal), Hids in H.
     destruct (existsb (N.eqb k) (served ss)); inversion H; subst; clear H;
       apply rel_intro; cbn [trk running store served accepted up value]; try assumption; try reflexivity; try congruence.
+  - (* Flood *)
+    inversion H; subst. apply rel_intro; assumption.
   - (* SetDecode *)
     inversion H; subst. apply rel_intro; assumption.
   - (* Stop *)
@@ -662,4 +664,21 @@ Lemma all_closed_when_stopped m evs s o : run (init m) evs = Some (s, o) -> runn
 Proof.
   intros Hrun Hr id Hsp. destruct (no_session_leaked m evs s o Hrun id Hsp) as [Ha|H]; [|exact H].
   destruct (after_stop m evs s o Hrun Hr) as [_ Hdead]. rewrite Hdead in Ha. discriminate.
+Qed.
+
+(* a connection arriving while the server runs is always accepted - also at the limit *)
+Lemma accept_spawns m evs s o s' o' : run (init m) evs = Some (s, o) -> running s = true ->
+  step s (Accept true) = Some (s', o') ->
+  In (Spawned (next_id (trk s))) o' /\ alive s' (next_id (trk s)) = true /\ running s' = true.
+Proof.
+  intros Hrun Hr Hstep. destruct (run_inv _ _ _ _ (sinv_init m) Hrun) as [[Hinv _] _].
+  unfold step in Hstep. rewrite Hr in Hstep. cbn [negb] in Hstep.
+  destruct (add (trk s)) as [[[t' id] ev]|] eqn:Hadd; [|discriminate]. inversion Hstep; subst. clear Hstep.
+  assert (Hid : next_id (trk s) <> u128_max).
+  { intros E. unfold add, get_next_id in Hadd.
+    destruct (if (max_sessions (trk s) <=? length (sessions (trk s)))%nat then _ else _) as [ss e0] in Hadd.
+    cbn [next_id] in Hadd. rewrite E, N.eqb_refl in Hadd. discriminate. }
+  destruct (add_spec _ Hinv Hid) as (kept & ev' & Heq & _). rewrite Heq in Hadd. inversion Hadd; subst. clear Hadd.
+  split; [apply in_or_app; right; now left|]. split; [|reflexivity].
+  apply alive_iff. cbn. apply in_or_app. right. now left.
 Qed.
